@@ -446,6 +446,28 @@ func checkC05(c *Ctx) {
 				}
 			}
 		}
+		// a text the compiler rejects: the error the user gets carries the compiler's code and
+		// position (line of the offending character, quoted as it stands in the text)
+		if resp.Kind == "error" && resp.Err != nil && len(resp.Batch) == 1 && resp.Batch[0].Err != nil && len(resp.Batch[0].Ints) == 1 {
+			pe := resp.Batch[0].Err
+			wantLine := resp.Batch[0].Ints[0] + 1
+			c.Count("varinput_syntax_errors_judged", 1)
+			frames, _, _, okText := parseErrorText(resp.Err.Text)
+			why := ""
+			switch {
+			case resp.Err.DisplayPanic != "":
+				why = "rendering the error panics: " + resp.Err.DisplayPanic
+			case !okText || !strings.Contains(resp.Err.Text, fmt.Sprintf("语法错误[%d]", pe.Code)):
+				why = fmt.Sprintf("the error does not carry the compiler's code %d", pe.Code)
+			case len(frames) != 1 || frames[0].line != wantLine:
+				why = fmt.Sprintf("the error does not name line %d (position %d) of the text", wantLine, pe.Cursor)
+			case !strings.Contains(vin[i], strings.TrimRight(frames[0].text, " ")):
+				why = fmt.Sprintf("the quoted line %q is not in the text", frames[0].text)
+			}
+			if why != "" {
+				c.Violation("varinput:syntax-error-lost:"+vin[i], fmt.Sprintf("input-variable text %q is rejected by the compiler (code %d at position %d, line %d) but %s\nerror shown to the user:\n%s", clip(vin[i], 120), pe.Code, pe.Cursor, wantLine, why, clip(resp.Err.Text, 400)), map[string]interface{}{"req": req})
+			}
+		}
 		switch resp.Kind {
 		case "ok", "error":
 		default:
